@@ -35,6 +35,12 @@ def load_contracts(prop=None):
     return mods
 
 
+# property -> obligation-id patterns ('prefix*suffix') of lemmas it relies on (primitive codec contracts: the value read is
+# the value written, length guard included).  Only lemmas without known-finding regions are imported.
+_CODEC_LEMMAS = ['C08.integer.*.roundtrip', 'C08.decimal.digit_restricted']
+LEMMAS = {'C01': _CODEC_LEMMAS, 'C02': _CODEC_LEMMAS, 'C03': _CODEC_LEMMAS}
+
+
 def load_known():
     """Open known findings: id -> entry.  'fixed:' entries suppress nothing."""
     out = {}
@@ -83,6 +89,14 @@ def main(argv=None):
     t0 = time.time()
     load_contracts(prop)
     ids = sorted(i for i, o in oblig.REGISTRY.items() if o.prop == prop)
+    # lemmas: contracts of callees that this property's contracts assume and that are discharged under another property's
+    # id; they are discharged again here, so that a change breaking the callee's contract fails this check too
+    for lp in sorted(set(x.split('.')[0] for x in LEMMAS.get(prop, ()))):
+        load_contracts(lp)
+    for i in sorted(oblig.REGISTRY):
+        if i not in ids and any(i.startswith(pre) and i.endswith(suf) for pre, suf in
+                                (tuple(x.split('*')) if '*' in x else (x, '') for x in LEMMAS.get(prop, ()))):
+            ids.append(i)
     if args.only:
         ids = [i for i in ids if args.only in i]
     if args.list:
